@@ -54,6 +54,14 @@ def value_alts(world, e, depth=0):
     return out
 
 
+def _anc(v):
+    out = []
+    while v.parent is not None:
+        v = v.parent[0]
+        out.append(v)
+    return out
+
+
 def contexts(prog, sem):
     """pricing contexts: (name, handler visit, visits of the context, token whose hook/entry it is)"""
     ex = entry(prog, "hub")
@@ -170,7 +178,8 @@ def run(prog, world, sem, rep):
         for (v, bb, tls, kind) in others:
             rep.ob("C03.c", "%s: %s target" % (name, kind), False, "%s message to %s (not a registered token)" % (kind, tls), where(v.body, bb))
         sw = [(v, bb, kind, val) for (v, bb, kind, cell, key, val, e) in storage_effects(sem, vs)
-              if cell == STATE and kind in ("write", "update") and v.body.path not in rs and (v is hv)]
+              if cell == STATE and kind in ("write", "update") and v.body.path not in rs and not any(a.body.path in rs for a in _anc(v)) and
+              v.body.kind != "closure"]
         bw = [(v, bb, kind, val) for (v, bb, kind, cell, key, val, e) in storage_effects(sem, vs) if cell == BATCH and kind in ("write", "update")]
         batch_written = {}
         for (v, bb, kind, val) in bw:
@@ -215,7 +224,9 @@ def run(prog, world, sem, rep):
                             if len(base) != 1:
                                 bad.append("supply term is not the %s token supply: %s" % (tk, [show(t, 2) for _, t in terms]))
                             adj = sorted((s, repr(world.norm(t, 0, False))) for s, t in terms if roles.role(t) != ("supply", tk) and not (t.op == "call" and t.info.endswith("::zero")))
-                            exp = sorted((s, repr(world.norm(amt, 0, False))) for (s, amt, k2, v2, b2) in tm[tk])
+                            # (both sides as multisets of signed leaves, so that `supply + (m - fee)` and `supply + m - fee` agree)
+                            exp = sorted((s * s2, repr(world.norm(leaf, 0, False))) for (s, amt, k2, v2, b2) in tm[tk] for (s2, leaf) in signed_terms(world, amt)
+                                         if not (world.ident(leaf, expand_ws=False).op == "call" and world.ident(leaf, expand_ws=False).info.endswith("::zero")))
                             if adj != exp:
                                 bad.append("supply adjusted by %s but the operation mints/burns %s of %s" % ([a0 for a0, _ in adj], [a0 for a0, _ in exp], tk))
                         rep.ob("C03.b", "%s: %s rate formula operands" % (name, tk), not bad, "; ".join(bad) if bad else
